@@ -429,8 +429,9 @@ CloseLocal(s, e, id, sl, inhibit, cause) ==
              s2 == IF ~x.closedW /\ ~inhibit THEN Out(s1, e, MReset(id, x.conn)) ELSE s1
          IN Wake(s2, (IF x.wreg THEN {WakeW(e, sl.h)} ELSE {}) \cup (IF x.rreg /\ sl.rd THEN {WakeR(e, sl.h)} ELSE {}))
     [] sl.k = "Req" ->
+         (* rejected by the peer (Reset): the requester retries; connection gone: it sees Closed *)
          IF HasCall(s, e, sl.c) /\ s.calls[e][sl.c].resp = "pending" /\ s.calls[e][sl.c].id = id
-         THEN Wake([s EXCEPT !.calls[e][sl.c].resp = "none"], {WakeC(e, sl.c)}) ELSE s
+         THEN Wake([s EXCEPT !.calls[e][sl.c].resp = IF cause = "down" THEN "closed" ELSE "none"], {WakeC(e, sl.c)}) ELSE s
     [] sl.k = "Bind" ->
          IF HasCall(s, e, sl.c) /\ s.calls[e][sl.c].resp = "pending" /\ s.calls[e][sl.c].id = id
          THEN Wake([s EXCEPT !.calls[e][sl.c].resp = "false"], {WakeC(e, sl.c)}) ELSE s
